@@ -1454,3 +1454,4 @@ def _sf_isinstance(ex, st, node):
 
 
 SYNTAX_FORMS = {"isinstance": _sf_isinstance}
+SPEC_FORMS = {"old", "implies", "forall", "exists", "ite"}
